@@ -1,11 +1,11 @@
 package layera
 
 import (
-	"regexp"
 	"fmt"
 	"go/types"
 	"os"
 	"path/filepath"
+	"regexp"
 	"sort"
 	"strings"
 	"sync"
@@ -29,7 +29,7 @@ type Kernel struct {
 	// AssumeBound: paths exceeding the unwind bound are dropped (and counted) instead of failing
 	AssumeBound bool
 	// PanicOK: ids of panics that are findings of another property (still reported in the result)
-	NoMerge bool
+	NoMerge      bool
 	NoMapPermute bool
 	// Stub: goverter functions (ssa names) replaced by stubs returning zero values
 	Stub []string
@@ -299,13 +299,13 @@ func (s *Session) Run(k Kernel) *KernelResult {
 	}
 	env := &stubEnv{s: s, pkg: pkg, res: res}
 	cfg := engine.Config{
-		Name:        k.Name,
-		Unwind:      k.Unwind,
-		MaxDepth:    k.MaxDepth,
-		MaxPaths:    k.MaxPaths,
-		Workers:     k.Workers,
-		AssumeBound: k.AssumeBound,
-		NoMerge:     k.NoMerge,
+		Name:         k.Name,
+		Unwind:       k.Unwind,
+		MaxDepth:     k.MaxDepth,
+		MaxPaths:     k.MaxPaths,
+		Workers:      k.Workers,
+		AssumeBound:  k.AssumeBound,
+		NoMerge:      k.NoMerge,
 		NoMapPermute: k.NoMapPermute,
 		Inline: func(fn *ssa.Function) bool {
 			if !inGoverter(fn) {
@@ -321,10 +321,10 @@ func (s *Session) Run(k Kernel) *KernelResult {
 			}
 			return true
 		},
-		Intrinsic:   env.intrinsic,
-		External:    env.external,
-		Invoke:      env.invoke,
-		Native:      NativeTable(),
+		Intrinsic: env.intrinsic,
+		External:  env.external,
+		Invoke:    env.invoke,
+		Native:    NativeTable(),
 	}
 	if cfg.Workers == 0 {
 		cfg.Workers = 8
@@ -423,4 +423,3 @@ func (s *Session) Run(k Kernel) *KernelResult {
 func shortPos(repo, pos string) string {
 	return strings.TrimPrefix(pos, repo+"/")
 }
-
